@@ -62,6 +62,8 @@ func cmdGen(args []string) {
 			b = g.behC09()
 		case "C03":
 			b = g.behC03()
+		case "C18":
+			b = g.behC18()
 		default:
 			if fn, ok := genFns[*prop]; ok {
 				b = fn(g)
@@ -1011,4 +1013,73 @@ func (g *gen) behC03() M {
 	}
 	b["steps"] = steps
 	return b
+}
+
+// behC18: callbacks retain what they are given; then messages of every size
+// around the 4 KiB granule and the limit follow: padded queries, Bind
+// parameters, skipped oversized messages, COPY data.
+func (g *gen) behC18() M {
+	cfg := baseCfg()
+	L := []int{4096, 4097, 5000, 8192, 12000}[g.rng.Intn(5)]
+	cfg["limit"] = L
+	cfg["auth"] = "clear"
+	cfg["mw"] = []any{"ok"}
+	steps := []any{send(M{"t": "Startup", "term": true, "kvs": []any{M{"k": "user", "v": g.text(20)}, M{"k": "database", "v": g.text(20)}, M{"k": "application_name", "v": g.text(100)}}}),
+		send(M{"t": "p", "pw": "good"})}
+	sizes := []int{1, 2, 100, 4090, 4095, 4096, 4097, L - 1, L, L / 2}
+	for i := range sizes {
+		if sizes[i] > L { // everything here fits the limit (oversized messages are sent as such, see "Big")
+			sizes[i] = L
+		}
+	}
+	n := 2 + g.rng.Intn(10)
+	for i := 0; i < n; i++ {
+		switch g.rng.Intn(6) {
+		case 0, 1:
+			q := g.trivialQ()
+			if run.I(q, "id") < 1000 {
+				q["pad"] = sizes[g.rng.Intn(len(sizes))]
+			}
+			steps = append(steps, send(M{"t": "Q", "q": q}))
+		case 2:
+			steps = append(steps, send(M{"t": "Big", "ty": g.pick("Q", "d", "U"), "over": []int{1, 100, L, 2*L + 7}[g.rng.Intn(4)]}))
+		case 3:
+			// extended: parameters of various sizes
+			g.id++
+			st := M{"id": g.id, "cols": []any{}, "oids": []any{}, "prog": []any{M{"op": "complete", "tag": "OK"}, M{"op": "ret", "r": "nil"}}}
+			params := []any{}
+			np := 1 + g.rng.Intn(3)
+			for j := 0; j < np; j++ {
+				sz := sizes[g.rng.Intn(len(sizes))] / 2
+				if max := (L - 64) / np; sz > max { // the Bind message itself must fit the limit
+					sz = max
+				}
+				b := make([]byte, sz)
+				g.rng.Read(b)
+				params = append(params, M{"null": false, "_hex": hex.EncodeToString(b)})
+			}
+			steps = append(steps, send(M{"t": "P", "name": "", "q": M{"id": g.id, "parse": "ok", "stmts": []any{st}}, "noids": 0}),
+				send(M{"t": "B", "portal": "", "stmt": "", "pfmt": []any{1}, "params": params, "rfmt": []any{}}),
+				send(M{"t": "E", "portal": "", "max": 0}), send(M{"t": "S"}))
+		default:
+			// COPY with chunks of various sizes
+			g.id++
+			prog := []any{M{"op": "copyin", "fmt": 0}}
+			k := 1 + g.rng.Intn(4)
+			for j := 0; j < k+1; j++ {
+				prog = append(prog, M{"op": "copyread", "onerr": "ret"})
+			}
+			prog = append(prog, M{"op": "complete", "tag": "COPY"}, M{"op": "ret", "r": "nil"})
+			st := M{"id": g.id, "cols": g.cols(1), "oids": []any{}, "prog": prog}
+			steps = append(steps, send(M{"t": "Q", "q": M{"id": g.id, "parse": "ok", "stmts": []any{st}}}))
+			for j := 0; j < k; j++ {
+				b := make([]byte, sizes[g.rng.Intn(len(sizes))])
+				g.rng.Read(b)
+				steps = append(steps, send(M{"t": "d", "_hex": hex.EncodeToString(b)}))
+			}
+			steps = append(steps, send(M{"t": "c"}))
+		}
+	}
+	steps = append(steps, send(M{"t": "Q", "q": g.trivialQ()}))
+	return M{"cfg": cfg, "steps": steps}
 }
